@@ -494,6 +494,16 @@ impl FileFormat {
     }
 
     fn write_header(&self, f: &mut BinWriter, emitter: &dyn Emitter, header: &EntryHeaderData) -> WriteResult {
+        // fields that the other version of the header has no room for
+        let missing_fields = match self.version.is_old_header() {
+            true => vec![("offset_x", header.offset_x), ("offset_y", header.offset_y), ("low_res_scale", header.low_res_scale)],
+            false => vec![("colorkey", header.colorkey)],
+        };
+        for (name, value) in missing_fields {
+            if value != 0 {
+                return Err(emitter.as_sized().emit(error!("'{}: {}' cannot be stored in this version of the ANM format", name, value)));
+            }
+        }
         if self.version.is_old_header() {
             // old format
             f.write_u32(header.num_sprites as _)?;
